@@ -227,6 +227,7 @@ func runPipeChild(specPath string) {
 	// ---- hook handler
 	res := &PipeResult{Port: port, Stats: map[string]int{}}
 	var finished atomic.Int64
+	var sawInsert atomic.Bool // quiescence is only meaningful once the queue has started handing out rows
 	var stopOnce sync.Once
 	stopDone := make(chan struct{})
 	t0 := time.Now()
@@ -267,6 +268,9 @@ func runPipeChild(specPath string) {
 			}
 		}
 		evlog.write(point, fields...)
+		if point == "lq.inserted" {
+			sawInsert.Store(true)
+		}
 		if point == "fin.notified" {
 			finished.Add(1)
 		}
@@ -279,7 +283,14 @@ func runPipeChild(specPath string) {
 		}
 		if sp.PauseAt != nil && sp.PauseAt.Point == point && sp.PauseAt.K == n {
 			evlog.write("pause.call")
-			go func() { pause.Pause("verif"); evlog.write("pause.return") }()
+			go func() {
+				pause.Pause("verif")
+				evlog.write("pause.return")
+				if sp.StopAt != nil && sp.StopAt.Point == "paused" {
+					time.Sleep(time.Duration(sp.StopAt.K) * time.Millisecond)
+					doStop()
+				}
+			}()
 		}
 		if sp.StopAt != nil && sp.StopAt.Point == point && sp.StopAt.K == n {
 			doStop()
@@ -334,9 +345,10 @@ loop:
 			if res.StopCalled {
 				continue
 			}
-			quiet := time.Since(time.Unix(0, lastEvent.Load())) > idle && len(reactor.GetStateTable()) == 0
+			quiet := time.Since(time.Unix(0, lastEvent.Load())) > idle && len(reactor.GetStateTable()) == 0 &&
+				(len(sp.LQRows) == 0 || runN > 1 || sawInsert.Load())
 			if (sp.Expect > 0 && int(finished.Load()) >= sp.Expect && quiet) || (sp.Expect == 0 && quiet) {
-				if sp.StopAt != nil && sp.StopAt.Point == "quiescence" || sp.StopAt == nil {
+				{ // a stop point that was never reached: stop at quiescence all the same
 					res.QuiescentAtMs = time.Since(t0).Milliseconds()
 					res.StateAtQuiet = len(reactor.GetStateTable())
 					if sp.Footprint {
